@@ -68,7 +68,9 @@ def projects(tier):
 def plan(tier):
     out = []
     for name, lang, files, settings in projects(tier):
-        for cmd, confs in (("semantic", list(CONFIGS)), ("run", ["default", "caches1"])):
+        for cmd, confs in (("semantic", list(CONFIGS)), ("run", ["default", "caches1"]), ("semantic+p2", ["default", "rows30_caches1"])):
+            if cmd == "semantic+p2" and lang != "python":
+                continue
             for cn in confs:
                 out.append((name, lang, files, settings, cmd, cn))
     return out
@@ -134,7 +136,8 @@ def run_part(out_dir, tier, v):
     root = os.path.join(out_dir, "real")
     os.makedirs(root, exist_ok=True)
     pl = plan(tier)
-    jobs = [dict(cmd=cmd, lang=lang, files=files, dir=os.path.join(root, "%s_%s_%s" % (name, cmd, cn)), settings=settings, flags=["--nomock"], export=[],
+    jobs = [dict(cmd=cmd.split("+")[0], lang=lang, files=files, dir=os.path.join(root, "%s_%s_%s" % (name, cmd.replace("+", "_"), cn)), settings=settings,
+                 flags=["--nomock"] + (["--enable-p2"] if cmd.endswith("+p2") else []), export=[],
                  pre_hook="ldtrace", post_hook="ldtrace", post_always=True, log_gets=True, timeout=900, **CONFIGS[cn])
             for name, lang, files, settings, cmd, cn in pl]
     res = C.lian_batch(jobs)
@@ -172,7 +175,7 @@ def run_part(out_dir, tier, v):
                                 {"project": name, "command": cmd, "config": dict(CONFIGS[cn]), "loader": stem, "saves_default": len(la), "saves_here": len(lb),
                                  "first_difference_at_save": k, "default": la[k:k + 1], "here": lb[k:k + 1]})
         # (T) one chain per loader object
-        forest = Forest(root, "c15real_%s_%s_%s" % (name, cmd, cn), max_nodes=10 ** 9)
+        forest = Forest(root, "c15real_%s_%s_%s" % (name, cmd.replace("+", "_"), cn), max_nodes=10 ** 9)
         n_ids, n_conts = 1, 1
         for ld in r["post"]["loaders"]:
             evs, ni, nc, restored = tokens(ld)
